@@ -278,6 +278,17 @@ func explainBg(s *Sim, runner func(name string) *BgRunner) (vs []Violation, expl
 				key = "C02:sweep-overrides-renewed-lease"
 			}
 		}
+		if tx.Name == "SchedulePromises" {
+			// F21: the cycle read an earlier incarnation of a schedule id that was deleted and re-created (same due
+			// occurrence) before the write; the (id, next_run_time) guard matches the new incarnation
+			for _, c := range tx.Diff {
+				if c.Table == "schedules" && c.Before != nil {
+					if r0 := f.Pre["schedules"][c.Key]; r0 != nil && (r0.I("sort_id") != c.Before.I("sort_id") || r0.I("created_on") != c.Before.I("created_on")) {
+						key = "C02:stale-cycle-advances-recreated-schedule"
+					}
+				}
+			}
+		}
 		vs = append(vs, Violation{"C02", "bg-unexplained", key, fmt.Sprintf("background transaction tx#%d of %s [%s] (dispatched %d, committed %d) wrote what the sweep run alone on the state it found does not write at any clock value of its window %v: it overrode an intermediate change.\n %s", tx.Seq, tx.ReqId, tx.CmdString(), tx.Dispatch-Base, tx.Tick-Base, rel(ticks), miss)})
 	}
 	return
